@@ -146,6 +146,19 @@ def run(chk):
     all_fail += f
     stats["multi_asset_stream_cases"] = len(cases_m)
 
+    # 2e. sizes: blocks, splits and ordered destinations with 5…257 clauses, 9…65 levels of nesting, up to 65 statements,
+    # 40 more accounts (and, through them, dozens of variables, balances and postings): the sizes at which inline arrays
+    # become maps, buffers fill up and narrow counters wrap
+    large_profile = {"wide": 0.25, "pool": 40, "deep": 0.1, "stmts_max": 3, "acct_var": 0.4, "origins": 0.05, "pad_front": 0.25, "wide_send": 0.3, "wide_pair": 0.12,
+                     "overdraft_unbounded": 0.2}
+    cases_l, gens_l = P.make_cases(pid, seed + 15485863, max(200, n // 8), start=9_000_000, profile_override=large_profile)
+    gos_l = runner.run_go(cases_l)
+    models_l = P.run_model(cases_l, gos_l)
+    d, f = evaluate(chk, pid, cases_l, gens_l, gos_l, models_l, stats, samples)
+    all_dis += d
+    all_fail += f
+    stats["large_stream_cases"] = len(cases_l)
+
     # 2d. poisoned leaves: one account anywhere in the script replaced by an unbound variable, or one cap (`max [A n]`) given
     # another asset. Wherever that leaf is evaluated the run must fail with that error; where it is never reached the
     # run is the original one. (The model decides which; for C12 the dichotomy itself is also checked.)
@@ -188,7 +201,7 @@ def run(chk):
     # 3. property-specific sub-checks on the real code
     extra = EXTRAS.get(pid)
     if extra:
-        f2, d2 = extra(chk, cases, gens, gos, stats)
+        f2, d2 = extra(chk, cases_l + cases, gens_l + gens, gos_l + gos, stats)
         all_fail += f2
         all_dis += d2
 
@@ -276,6 +289,10 @@ def extra_C09(chk, cases, gens, gos, stats):
             continue
         per = P.stmt_postings(go)
         V = P.flat_balances(c)
+        ks = set(range(1, len(g["stmts"])))
+        if len(ks) > 6:
+            # long scripts: the first and last split points and a few in between
+            ks = {1, 2, len(g["stmts"]) - 1, len(g["stmts"]) // 2, 16 if len(g["stmts"]) > 17 else 3, 64 if len(g["stmts"]) > 65 else 4}
         for k in range(1, len(g["stmts"])):
             # visible balances after statements 0..k-1: Go's own postings + save reservations
             st = g["stmts"][k - 1]
@@ -286,6 +303,8 @@ def extra_C09(chk, cases, gens, gos, stats):
                 b = V.get((st[3], st[1]), 0)
                 if b > 0:
                     V[(st[3], st[1])] = 0 if st[2] is None else max(0, b - st[2])
+            if k not in ks:
+                continue
             bal2 = {}
             for (a, cc), v in V.items():
                 bal2.setdefault(a, {})[cc] = str(v)
